@@ -406,6 +406,23 @@ VCHECK("c02.client", 600)
     Input in;
     if (!buildInput(t, in))
         return;
+    // an eighth of the inputs are stream-management nonzas with the counter at and around its bounds (the repository's tests
+    // have no document for them, so the mutator would never produce one); a stanza of ours is waiting for an ack then
+    const bool smNonza = t.prob(1, 8);
+    if (smNonza) {
+        static const QStringList hs = { "0", "1", "2", "2147483647", "2147483648", "4294967294", "4294967295", "4294967296", "4000000000", "-1", "", "abc" };
+        const QString h = t.pick(hs.toVector().toStdVector());
+        switch (t.u(4)) {
+        case 0: in.xml = QStringLiteral("<a xmlns='urn:xmpp:sm:3' h='%1'/>").arg(h); break;
+        case 1: in.xml = QStringLiteral("<resumed xmlns='urn:xmpp:sm:3' h='%1' previd='sid'/>").arg(h); break;
+        case 2: in.xml = QStringLiteral("<enabled xmlns='urn:xmpp:sm:3' id='sid' resume='true' max='%1'/>").arg(h); break;
+        default: in.xml = QStringLiteral("<r xmlns='urn:xmpp:sm:3'/>"); break;
+        }
+        in.parsed = xu::parseFragment(in.xml);
+        in.target = in.parsed.el;
+        in.mutations = 1;
+        in.desc = QStringLiteral("stream-management nonza ") + in.xml;
+    }
     TestClient::resetIdCounter();
     bool defaults = t.b();
     {
@@ -415,6 +432,13 @@ VCHECK("c02.client", 600)
         client.enableSm(true);
         client.openSession();
         client.pump(1);
+        if (smNonza) {
+            // one stanza sent and not yet acknowledged
+            QXmppMessage waiting(QString(), QStringLiteral("bob@example.org"), QStringLiteral("waiting for an ack"));
+            client.send(std::move(waiting));
+            client.pump(1);
+            c.label("stream-management-nonza-with-unacked-stanza");
+        }
         client.take();
         // An <iq/> may be the answer to a request of ours: with a request outstanding under the same id and addressee the
         // element takes the response path (OutgoingIqManager, the managers' result parsers) instead of the request path.
